@@ -87,7 +87,9 @@ pub fn route_live_slice(ctx: &Ctx, tables: &[Vec<Spec>], samples: &Samples) -> S
     paths.push("/a/b/c".into());
     paths.push("/a/a/a".into());
     paths.push("/a//b/".into());
-    let versions = ["1.0.0", "2.0.0", "3.5.0"];
+    // consecutive requests on one connection differ only in the version, including a pre-release of a
+    // range bound right before and right after the bound itself (per-connection state must not leak)
+    let versions = ["1.0.0", "2.0.0-rc.1", "2.0.0", "2.0.0-rc.1", "3.5.0"];
     par_for(tables.len(), 8, ctx.seed, |ti| {
         let specs = &tables[ti];
         let (api_a, _) = build_table(specs);
